@@ -129,7 +129,11 @@ class PDriver:
         kids = sorted(self.gw.sensors[nid].children)
         if not kids or r < 0.67:
             return [f"{nid};{len(kids)};0;0;3;child {k} é\n"]
-        return [f"{nid};{self.rng.choice(kids)};1;0;2;{k % 2}\n", f"{nid};255;3;0;11;sketch{k}\n"]
+        # exactly ONE line per mutation: a mutation is one atomic step of the specification (a two-line change that is
+        # half included by a concurrent dump would be a state the version table does not know)
+        if k % 2:
+            return [f"{nid};255;3;0;11;sketch{k}\n"]
+        return [f"{nid};{self.rng.choice(kids)};1;0;24;value {k}\n"]
 
     def mutate(self, record=True):
         """A message changes the network (fresh version)."""
